@@ -1,12 +1,13 @@
 (* C18 — log_call is transparent: same result, same exceptions, faithful argument log.
    Statements only; proofs are in Proofs/LogCallProofs.v, the model in Model/LogCall.v.
 
-   wrapper f o parent c   the decorated function (boltons-generated outer function,
-                          getcallargs, logged action, call of the real function)
+   wrapper f o parent c   the decorated function (after commit cc84555): sig.bind + apply_defaults,
+                          the logged action, the call of the real function with the caller's arguments
    call_fn f c            the undecorated function under Python's binding rule [bind]
-   guards                 wf_sig: what `def` accepts;  no_posonly_kw: no keyword argument
-                          names a positional-only parameter (known findings F3b/F3c);
-                          no_param_named_call: no parameter is called _call (F3e) *)
+   guard                  no_posonly_default_clash s c: inspect.Signature.bind's one deviation from
+                          Python's rule (a keyword naming a positional-only parameter that no positional
+                          argument filled) does not hit a call Python accepts.  No condition on the
+                          signature or on parameter names is needed. *)
 From Coq Require Import List PArith ZArith Bool String.
 Require Import Eliot.Model.LogCall Eliot.Proofs.LogCallProofs.
 Import ListNotations.
@@ -14,9 +15,7 @@ Import ListNotations.
 (* same returned value, same raised exception object, TypeError iff the undecorated call is a
    TypeError — for every signature, parameter naming, call, option set, body and enclosing action *)
 Theorem C18_outcome : forall (f : fn) (o : opts) (parent : option (list positive)) (c : fcall),
-  wf_sig (f_sig f) = true ->
-  no_param_named_call (f_sig f) ->
-  no_posonly_kw (f_sig f) c ->
+  no_posonly_default_clash (f_sig f) c ->
   fst (wrapper f o parent c) = call_fn f c.
 Proof. exact C18_outcome_thm. Qed.
 Print Assumptions C18_outcome.
@@ -25,9 +24,7 @@ Print Assumptions C18_outcome.
    restricted to include_args, under the five keys Action._start assigns; its end message holds
    the result iff include_result, or the exception *)
 Theorem C18_logged : forall (f : fn) (o : opts) (parent : option (list positive)) (c : fcall) (b : bindings),
-  wf_sig (f_sig f) = true ->
-  no_param_named_call (f_sig f) ->
-  no_posonly_kw (f_sig f) c ->
+  no_posonly_default_clash (f_sig f) c ->
   bind (f_sig f) c = Ok b ->
   let t := action_type_of f o in
   let lvl := match parent with Some l => l | None => [] end in
@@ -58,9 +55,8 @@ Theorem C18_type_default : forall f o,
 Proof. exact C18_type_default_thm. Qed.
 Print Assumptions C18_type_default.
 
-(* an argument list the function rejects: TypeError, and nothing is logged *)
+(* an argument list the function rejects: TypeError, and nothing is logged (no guard) *)
 Theorem C18_invalid_call : forall f o parent c,
-  no_posonly_kw (f_sig f) c ->
   bind (f_sig f) c = TypeErr ->
   wrapper f o parent c = (Raised RTypeError, []).
 Proof. exact C18_invalid_call_thm. Qed.
@@ -73,31 +69,24 @@ Theorem C18_decoration : forall f o,
 Proof. exact C18_decoration_thm. Qed.
 Print Assumptions C18_decoration.
 
-(* known finding F3b: def f(x, /, **kwargs) called f(1, x=2) *)
-Theorem C18_posonly_refuted :
+(* the guard cannot be dropped: def f(x=101, /, **kwargs) called f(x=2) *)
+Theorem C18_posonly_default_refuted :
   exists (f : fn) (o : opts) (c : fcall),
-    wf_sig (f_sig f) = true /\ no_param_named_call (f_sig f) /\
-    posonly_kw_clash (f_sig f) c = true /\
+    wf_sig (f_sig f) = true /\
+    bind (f_sig f) c = Ok [(nm_x, BVal 101%Z); (nm_kw, BDict [(nm_x, 2%Z)])] /\
     call_fn f c = Returned 500%Z /\
     wrapper f o None c = (Raised RTypeError, []).
-Proof. exact C18_posonly_refuted_thm. Qed.
-Print Assumptions C18_posonly_refuted.
+Proof. exact C18_posonly_default_refuted_thm. Qed.
+Print Assumptions C18_posonly_default_refuted.
 
-(* known finding F3c: def h(x, /) called h(x=1) *)
-Theorem C18_posonly_accepted_refuted :
-  exists (f : fn) (o : opts) (c : fcall),
-    wf_sig (f_sig f) = true /\ no_param_named_call (f_sig f) /\
-    call_fn f c = Raised RTypeError /\
-    fst (wrapper f o None c) = Returned 1%Z /\
-    List.length (snd (wrapper f o None c)) = 2.
-Proof. exact C18_posonly_accepted_refuted_thm. Qed.
-Print Assumptions C18_posonly_accepted_refuted.
-
-(* known finding F3e: def f(_call) called f(3) *)
-Theorem C18_param_call_refuted :
-  exists (f : fn) (o : opts) (c : fcall),
-    wf_sig (f_sig f) = true /\ no_posonly_kw (f_sig f) c /\
-    call_fn f c = Returned 7%Z /\
-    wrapper f o None c = (Raised RTypeError, []).
-Proof. exact C18_param_call_refuted_thm. Qed.
-Print Assumptions C18_param_call_refuted.
+(* for the record: the wrapper before cc84555 (boltons' wraps + getcallargs) failed on
+   f(x, /, **kwargs) called f(1, x=2); h(x, /) called h(x=1); f(_call) called f(3) *)
+Theorem C18_legacy_refuted :
+  (exists f o c, wf_sig (f_sig f) = true /\ posonly_kw_clash (f_sig f) c = true /\
+     call_fn f c = Returned 500%Z /\ wrapper_legacy f o None c = (Raised RTypeError, [])) /\
+  (exists f o c, wf_sig (f_sig f) = true /\
+     call_fn f c = Raised RTypeError /\ fst (wrapper_legacy f o None c) = Returned 1%Z) /\
+  (exists f o c, wf_sig (f_sig f) = true /\
+     call_fn f c = Returned 7%Z /\ wrapper_legacy f o None c = (Raised RTypeError, [])).
+Proof. exact C18_legacy_refuted_thm. Qed.
+Print Assumptions C18_legacy_refuted.
